@@ -351,6 +351,8 @@ func histString(h []Rec) string {
 	return b.String()
 }
 
+var lastResult sched.Result
+
 func RunSched(c Case) pbt.Outcome {
 	var set sync2.Set[int]
 	model, bad := runSetup(&set, c.Setup)
@@ -371,6 +373,7 @@ func RunSched(c Case) pbt.Outcome {
 		})
 	}
 	res := s.Run()
+	lastResult = res
 	var hist []Rec
 	for _, rs := range recs {
 		hist = append(hist, rs...)
@@ -571,6 +574,71 @@ var specStress = pbt.Register(&pbt.Spec[Case]{
 	Gen: func(t *rapid.T) Case { return gen(t, false) }, Run: RunStress, Quick: 250, Thorough: 4000, Crashy: true, Retries: 200,
 })
 
-func TestC05Sched(t *testing.T)  { pbt.Check(t, specSched) }
-func TestC05Stress(t *testing.T) { pbt.Check(t, specStress) }
-func TestReplay(t *testing.T)    { pbt.Replay(t) }
+var setupRecipes = [][]SOp{
+	{},
+	{{K: "add", V: 0}},             // only in dirty
+	{{K: "add", V: 0}, {K: "len"}}, // clean read map
+	{{K: "add", V: 0}, {K: "len"}, {K: "rem", V: 0}},                   // nil entry
+	{{K: "add", V: 0}, {K: "len"}, {K: "rem", V: 0}, {K: "add", V: 3}}, // expunged entry
+	{{K: "add", V: 0}, {K: "len"}, {K: "add", V: 3}},                   // clean + amended
+	{{K: "add", V: 3}, {K: "len"}, {K: "add", V: 0}},                   // dirty-only next to a clean bystander
+}
+
+func enumPrograms(yield func(c Case) bool) {
+	point := []SOp{{K: "add", V: 0}, {K: "rem", V: 0}, {K: "has", V: 0}}
+	var progsA [][]SOp
+	for _, a := range point {
+		progsA = append(progsA, []SOp{a})
+		for _, b := range point {
+			progsA = append(progsA, []SOp{a, b})
+		}
+	}
+	progsB := [][]SOp{{{K: "add", V: 0}}, {{K: "rem", V: 0}}, {{K: "has", V: 0}}, {{K: "addset", Set: []int{0}}}, {{K: "remset", Set: []int{0}}},
+		{{K: "addset", Set: []int{0, 1}}}, {{K: "len"}}, {{K: "add", V: 1}}}
+	for _, setup := range setupRecipes {
+		for _, a := range progsA {
+			for _, b := range progsB {
+				if !yield(Case{Setup: setup, Threads: [][]SOp{a, b}, Vals: 2}) {
+					return
+				}
+			}
+		}
+	}
+}
+
+var specSchedEnum = pbt.Register(&pbt.Spec[Case]{
+	Property: "C05", Name: "C05.schedenum",
+	Rule: "E3 bounded-exhaustive: 7 setup recipes (layouts of the underlying Map) x thread A with 1..2 of {Add,Remove,Has}(0) x thread B with one of {Add,Remove,Has,AddSet,RemoveSet,Len,Add(other)}; for each program ALL schedules with " +
+		"at most 2 (thorough: 3) non-default scheduling choices, by stateless re-execution; " + ruleCommon,
+	Enum: func(shard, shards int, tier string, yield func(Case) bool) {
+		bound := 2
+		if tier == "thorough" {
+			bound = 3
+		}
+		i := 0
+		enumPrograms(func(c Case) bool {
+			i++
+			if i%shards != shard {
+				return true
+			}
+			ok := true
+			sched.EnumSchedules(bound, func(schedule []int) ([]int, bool) {
+				cc := c
+				cc.Sched = append([]int(nil), schedule...)
+				lastResult = sched.Result{}
+				if !yield(cc) {
+					ok = false
+					return nil, true
+				}
+				return lastResult.OptCounts, false
+			})
+			return ok
+		})
+	},
+	Run: RunSched, Exhaustive: true, Crashy: true, Retries: 30,
+})
+
+func TestC05SchedEnum(t *testing.T) { pbt.Check(t, specSchedEnum) }
+func TestC05Sched(t *testing.T)     { pbt.Check(t, specSched) }
+func TestC05Stress(t *testing.T)    { pbt.Check(t, specStress) }
+func TestReplay(t *testing.T)       { pbt.Replay(t) }
